@@ -684,3 +684,239 @@ Section ProcessComplete.
     - intro HnP. destruct (ACC q Hq) as [(HP & _)|[[c Hc]|[c Hc]]]; [contradiction| |]; exists c; apply in_or_app; [now right|now left].
   Qed.
 End ProcessComplete.
+
+(* ------------------------------------------------------------------ locality: derivations only look at what a component reaches *)
+Inductive reaches (g : graph) (b : ref) : ref -> Prop :=
+| reach_here : reaches g b b
+| reach_edge r n e : In n g -> n_ref n = r -> In e (node_edges n) -> reaches g b (snd (fst e)) -> reaches g b r.
+
+(* g and g' are the same document except for the description of component b *)
+Definition agree_off (b : ref) (g g' : graph) : Prop :=
+  (forall n, In n g -> n_ref n <> b -> In n g') /\ (forall n, In n g' -> n_ref n <> b -> In n g).
+Lemma agree_off_sym b g g' : agree_off b g g' -> agree_off b g' g.
+Proof. intros [A B]. split; assumption. Qed.
+
+Lemma reaches_transfer b g g' : agree_off b g g' -> forall r, reaches g b r -> reaches g' b r.
+Proof.
+  intros [A _] r H. induction H as [|r n e Hn Hr He _ IH]; [constructor|].
+  destruct (N.eq_dec r b) as [->|Hne]; [constructor|]. eapply reach_edge; [apply A; [exact Hn|congruence]|exact Hr|exact He|exact IH].
+Qed.
+
+Lemma unaffected_target g b n e : In n g -> In e (node_edges n) -> ~ reaches g b (n_ref n) -> ~ reaches g b (snd (fst e)).
+Proof. intros Hn He Hu Hr. apply Hu. eapply reach_edge; eauto. Qed.
+
+Lemma need_ts_node_edge n t : In t (need_ts (n_create n)) -> exists k rs, In (k, t, rs) (node_edges n).
+Proof. intro H. destruct (need_ts_edges _ _ H) as [k [rs He]]. exists k, rs. unfold node_edges. apply in_or_app. now left. Qed.
+Lemma need_ts_entry_edge n e t : In e (n_entries n) -> In t (need_ts (e_prog e)) -> exists k rs, In (k, t, rs) (node_edges n).
+Proof.
+  intros He H. destruct (need_ts_edges _ _ H) as [k [rs Hx]]. exists k, rs. unfold node_edges. apply in_or_app. right.
+  apply in_flat_map. eauto.
+Qed.
+Lemma allof_ts_entry_edge n e t : In e (n_entries n) -> In t (allof_ts (e_prog e)) -> exists rs, In (EAllOf, t, rs) (node_edges n).
+Proof.
+  intros He H. destruct (allof_ts_in _ _ H) as [i [rs [rc [Hi Ho]]]]. exists rs. unfold node_edges. apply in_or_app. right.
+  apply in_flat_map. exists e. split; [exact He|]. unfold prog_edges. apply in_flat_map. exists i. split; [exact Hi|]. rewrite Ho. now left.
+Qed.
+
+Lemma C_local b g g' : agree_off b g g' -> forall k n, Cn g k n -> ~ reaches g b (n_ref n) -> Cn g' k n.
+Proof.
+  intros Hag. induction k as [|k IH]; intros n H Hu; [destruct H|]. destruct H as (A & B & D & E).
+  assert (Hnb : n_ref n <> b) by (intro X; apply Hu; rewrite X; constructor).
+  cbn [Cn]. split; [apply Hag; assumption|]. split; [exact B|]. split; [exact D|].
+  intros t Ht. destruct (E t Ht) as [m (M1 & M2 & M3)]. destruct (need_ts_node_edge _ _ Ht) as [kk [rs He]].
+  assert (Hum : ~ reaches g b (n_ref m)) by (rewrite M2; exact (unaffected_target g b n _ A He Hu)).
+  exists m. split; [apply Hag; [exact M1|intro X; apply Hum; rewrite X; constructor]|]. split; [exact M2|]. now apply IH.
+Qed.
+
+Lemma P_local b g g' : agree_off b g g' -> forall k n e, In n g -> In e (n_entries n) -> ~ reaches g b (n_ref n) -> Pn g k e -> Pn g' k e.
+Proof.
+  intros Hag. induction k as [|k IH]; intros n e Hn He Hu H; [destruct H|]. destruct H as (A & B & D).
+  cbn [Pn]. split; [exact A|]. split.
+  - intros t Ht. destruct (B t Ht) as [m (M1 & M2 & [kc M3])]. destruct (need_ts_entry_edge _ _ _ He Ht) as [kk [rs Hx]].
+    assert (Hum : ~ reaches g b (n_ref m)) by (rewrite M2; exact (unaffected_target g b n _ Hn Hx Hu)).
+    exists m. split; [apply Hag; [exact M1|intro X; apply Hum; rewrite X; constructor]|]. split; [exact M2|].
+    exists kc. eapply C_local; eauto.
+  - intros t Ht. destruct (D t Ht) as [m [j [e' (M1 & M2 & [kc M3] & M4 & M5 & M6)]]]. destruct (allof_ts_entry_edge _ _ _ He Ht) as [rs Hx].
+    assert (Hum : ~ reaches g b (n_ref m)) by (rewrite M2; exact (unaffected_target g b n _ Hn Hx Hu)).
+    exists m, j, e'. split; [apply Hag; [exact M1|intro X; apply Hum; rewrite X; constructor]|]. split; [exact M2|].
+    split; [exists kc; eapply C_local; eauto|]. split; [exact M4|]. split; [exact M5|].
+    eapply IH; [exact M1|eapply nth_error_In; eauto|exact Hum|exact M6].
+Qed.
+
+(* ------------------------------------------------------------------ guards unpacked *)
+Lemma g_contain_spec g : g_contain g = true ->
+  wf_graph g = true /\ g_plain g = true /\ g_allof_direct g = true /\ g_no_dup_error g = true /\ g_no_union_edge_to_failing g = true.
+Proof.
+  unfold g_contain. intro H. apply andb_true_iff in H. destruct H as [H H5]. apply andb_true_iff in H. destruct H as [H H4].
+  apply andb_true_iff in H. destruct H as [H H3]. apply andb_true_iff in H. destruct H as [H1 H2]. auto.
+Qed.
+
+Definition Surv (g : graph) (r : ref) : Prop := has (res_cbr (build_schemas g)) r = true.
+
+(* a component whose reference is among the roots of a model without derivation does not survive *)
+Lemma failed_entry_removed g : g_contain g = true ->
+  forall n e, In n g -> In e (n_entries n) -> has (s_cbr (r_st (create_loop g))) (n_ref n) = true ->
+  In (RRef (n_ref n)) (e_roots e) -> ~ P g e -> ~ Surv g (n_ref n).
+Proof.
+  intros Hg n e Hn He Hc Hroot HnP Hs. destruct (g_contain_spec _ Hg) as (Hwf & Hpl & Hdir & Hdup & Hun).
+  destruct (wf_graph_spec _ Hwf) as [Hnd Hwn].
+  destruct (create_phase_spec g Hnd) as [IC _].
+  destruct (wf_node_pushed n e (Hwn n Hn) He) as [i [j (Hi & Ho & Hj)]].
+  destruct (IC n Hn Hc) as (_ & _ & D3 & _). destruct (D3 i _ _ _ Hi Ho Hj) as [ow Hq].
+  destruct (proj2 (process_failed_iff g Hwf Hdir Hpl Hdup _ Hq) HnP) as [c Hm].
+  destruct (build_facts g) as [es (_ & _ & _ & _ & F5 & _)]. cbn zeta in F5.
+  specialize (F5 _ _ _ Hm Hroot). cbn in F5. unfold Surv in Hs. congruence.
+Qed.
+
+Section Transfer.
+  Variables (b : ref) (h h' : graph).
+  Hypothesis Hag : agree_off b h h'.
+  Hypothesis Hgh : g_contain h = true.
+  Hypothesis Hgh' : g_contain h' = true.
+
+  Lemma created_transfer n : In n h -> ~ reaches h b (n_ref n) ->
+    has (s_cbr (r_st (create_loop h))) (n_ref n) = true -> has (s_cbr (r_st (create_loop h'))) (n_ref n) = true.
+  Proof.
+    intros Hn Hu Hc. destruct (g_contain_spec _ Hgh) as (Hwf & Hpl & Hdir & Hdup & Hun).
+    destruct (g_contain_spec _ Hgh') as (Hwf' & Hpl' & Hdir' & Hdup' & Hun').
+    destruct (wf_graph_spec _ Hwf) as [Hnd _]. destruct (wf_graph_spec _ Hwf') as [Hnd' _].
+    destruct (create_sound h Hnd) as [_ CS]. destruct (CS _ Hc) as [n' (N1 & N2 & N3 & [k N4])].
+    assert (n' = n) by (exact (ref_inj h n' n Hnd N1 Hn N2)). subst n'.
+    apply (create_complete h' Hnd' Hpl' Hdup'). exists k. exact (C_local b h h' Hag k n N4 Hu).
+  Qed.
+
+  (* what the cascade of h deletes among the components that do not reach b, the run on h' does not keep either *)
+  Lemma removed_transfer q c : In (q, c) (r_final (process_loop (r_st (create_loop h))) ++ r_retry (process_loop (r_st (create_loop h)))) ->
+    forall r, Reach (s_deps (r_st (process_loop (r_st (create_loop h))))) (s_cbr (r_st (process_loop (r_st (create_loop h)))))
+                    (e_roots (q_entry q)) r ->
+    ~ reaches h b r -> ~ Surv h' r.
+  Proof.
+    intros Hm r HR. destruct (g_contain_spec _ Hgh) as (Hwf & Hpl & Hdir & Hdup & Hun).
+    destruct (g_contain_spec _ Hgh') as (Hwf' & Hpl' & Hdir' & Hdup' & Hun').
+    destruct (wf_graph_spec _ Hwf) as [Hnd Hwn]. destruct (wf_graph_spec _ Hwf') as [Hnd' Hwn'].
+    destruct (process_phase_spec (r_st (create_loop h))) as (P1 & P2 & P3 & P4 & P5).
+    destruct (create_sound h Hnd) as [_ CS].
+    destruct (provenance h) as [[Q1 Q2] ID]. cbn zeta in ID.
+    induction HR as [r Hin Hh|t r HRt IHt Hin Hh]; intros Hu Hs.
+    - (* r is a root of the model that failed *)
+      assert (Hq : In q (s_queue (r_st (create_loop h)))) by (apply in_app_or in Hm; destruct Hm as [Hm|Hm]; [eapply P5|eapply P4]; eauto).
+      destruct (Q1 q Hq) as [m [Hm1 Hm2]].
+      pose proof (wf_node_entry_self m _ r (Hwn m Hm1) Hm2 Hin) as Hr. subst r.
+      rewrite P1 in Hh.
+      assert (HnP : ~ P h (q_entry q)) by (apply (proj1 (process_failed_iff h Hwf Hdir Hpl Hdup _ Hq)); eauto).
+      assert (Hnb : n_ref m <> b) by (intro X; apply Hu; rewrite X; constructor).
+      assert (Hm' : In m h') by (apply Hag; assumption).
+      assert (Hu' : ~ reaches h' b (n_ref m)) by (intro X; apply Hu; eapply reaches_transfer; [apply agree_off_sym; exact Hag|exact X]).
+      assert (HnP' : ~ P h' (q_entry q)).
+      { intros [k Hk]. apply HnP. exists k. eapply (P_local b h' h (agree_off_sym _ _ _ Hag)); eauto. }
+      eapply (failed_entry_removed h' Hgh' m (q_entry q)); eauto. eapply created_transfer; eauto.
+    - (* r depends on a deleted reference t: the dependency was recorded by an instruction of r itself *)
+      destruct (ID _ _ Hin) as (m & p & i & Hm1 & Hp & Hi & Hd).
+      assert (Hedge : exists k rs, In (k, t, rs) (node_edges m) /\ In (RRef r) rs).
+      { destruct (i_op i) eqn:Eo; cbn in Hd; try contradiction.
+        - destruct Hd as (-> & Hx & _). exists k, rs. split; [|exact Hx]. eapply prog_of_edges; eauto.
+          unfold prog_edges. apply in_flat_map. exists i. split; [exact Hi|]. rewrite Eo. now left.
+        - destruct Hd as (-> & Hx & _). exists EAllOf, rs. split; [|exact Hx]. eapply prog_of_edges; eauto.
+          unfold prog_edges. apply in_flat_map. exists i. split; [exact Hi|]. rewrite Eo. now left.
+        - destruct Hd as [_ Hx]. discriminate. }
+      destruct Hedge as [k [rs [He Hrs]]].
+      assert (Hr : r = n_ref m).
+      { (* the only reference among the roots an instruction of m uses is m itself *)
+        pose proof (Hwn m Hm1) as W. unfold wf_node in W. apply andb_true_iff in W. destruct W as [W W3].
+        apply andb_true_iff in W. destruct W as [_ W2].
+        assert (Hs' : prog_self (n_ref m) p = true).
+        { destruct Hp as [->|[e [He' ->]]]; [exact W2|]. rewrite forallb_forall in W3. specialize (W3 _ He'). apply andb_true_iff in W3. tauto. }
+        unfold prog_self in Hs'. rewrite forallb_forall in Hs'. specialize (Hs' _ Hi).
+        destruct (i_op i) eqn:Eo; cbn in Hd; try contradiction.
+        - destruct Hd as (_ & Hx & _). cbn in Hs'. eapply roots_self_spec; eauto.
+        - destruct Hd as (_ & Hx & _). cbn in Hs'. eapply roots_self_spec; eauto.
+        - destruct Hd as [_ Hx]. discriminate. }
+      subst r.
+      assert (Hnb : n_ref m <> b) by (intro X; apply Hu; rewrite X; constructor).
+      assert (Hm' : In m h') by (apply Hag; assumption).
+      assert (Hut : ~ reaches h b t) by (exact (unaffected_target h b m _ Hm1 He Hu)).
+      (* if m survived in h', its edge to t would point at a survivor (removal_closed), but t does not survive there *)
+      pose proof (removal_closed h' Hwf' Hun' m Hm' Hs _ He) as Hst. cbn [fst snd] in Hst.
+      exact (IHt Hut Hst).
+  Qed.
+
+End Transfer.
+
+(* T containment, one direction: a survivor that does not reach b survives whatever b is replaced by *)
+Lemma surv_transfer b h h' : agree_off b h h' -> g_contain h = true -> g_contain h' = true ->
+  forall n, In n h -> ~ reaches h b (n_ref n) -> Surv h (n_ref n) -> Surv h' (n_ref n).
+Proof.
+  intros Hag Hgh Hgh' n Hn Hu Hs.
+  destruct (build_facts h) as [es (_ & _ & F3 & _)]. cbn zeta in F3.
+  destruct (process_phase_spec (r_st (create_loop h))) as (P1 & _).
+  assert (Hc : has (s_cbr (r_st (create_loop h))) (n_ref n) = true) by (rewrite <- P1; apply F3, Hs).
+  pose proof (created_transfer b h h' Hag Hgh Hgh' n Hn Hu Hc) as Hc'.
+  destruct (process_phase_spec (r_st (create_loop h'))) as (P1' & _).
+  unfold Surv. destruct (has (res_cbr (build_schemas h')) (n_ref n)) eqn:E; [reflexivity|exfalso].
+  rewrite <- P1' in Hc'.
+  destruct (removal_exact h' _ Hc' E) as [q [c [Hm HR]]].
+  (* the transfer lemma with the roles of the two documents exchanged *)
+  assert (Hu' : ~ reaches h' b (n_ref n)) by (intro X; apply Hu; eapply reaches_transfer; [apply agree_off_sym; exact Hag|exact X]).
+  exact (removed_transfer b h' h (agree_off_sym _ _ _ Hag) Hgh' Hgh q c Hm _ HR Hu' Hs).
+Qed.
+
+(* ------------------------------------------------------------------ T containment (C08): replace the description of component b by
+   anything (in particular by a version with a bad piece in it).  Under the guards on both documents, a component that does
+   not reach b through references survives in the one exactly when it survives in the other. *)
+Theorem containment b g g' : agree_off b g g' -> g_contain g = true -> g_contain g' = true ->
+  forall n, In n g -> ~ reaches g b (n_ref n) -> (Surv g (n_ref n) <-> Surv g' (n_ref n)).
+Proof.
+  intros Hag Hg Hg' n Hn Hu. split.
+  - now apply (surv_transfer b g g').
+  - assert (Hnb : n_ref n <> b) by (intro X; apply Hu; rewrite X; constructor).
+    assert (Hn' : In n g') by (apply Hag; assumption).
+    assert (Hu' : ~ reaches g' b (n_ref n)) by (intro X; apply Hu; eapply reaches_transfer; [apply agree_off_sym; exact Hag|exact X]).
+    now apply (surv_transfer b g' g (agree_off_sym _ _ _ Hag)).
+Qed.
+
+(* survivors only reach survivors (iterating removal_closed) *)
+Lemma surv_reach_closed g b : wf_graph g = true -> g_no_union_edge_to_failing g = true ->
+  forall r, reaches g b r -> Surv g r -> Surv g b.
+Proof.
+  intros Hwf Hun r H. induction H as [|r n e Hn Hr He _ IH]; [auto|]. intro Hs. apply IH.
+  subst r. exact (removal_closed g Hwf Hun n Hn Hs e He).
+Qed.
+
+(* ... so when b itself does not survive in g' (it carries the bad piece), the survivors of g' are exactly the survivors of g
+   minus the dependants* of b: nothing else is lost, nothing else appears *)
+Theorem containment_exact b g g' : agree_off b g g' -> g_contain g = true -> g_contain g' = true -> ~ Surv g' b ->
+  forall n, In n g -> (Surv g' (n_ref n) <-> Surv g (n_ref n) /\ ~ reaches g b (n_ref n)).
+Proof.
+  intros Hag Hg Hg' Hb n Hn. destruct (g_contain_spec _ Hg') as (Hwf' & _ & _ & _ & Hun'). split.
+  - intro Hs.
+    assert (Hu' : ~ reaches g' b (n_ref n)) by (intro X; apply Hb; eapply surv_reach_closed; eauto).
+    assert (Hu : ~ reaches g b (n_ref n)) by (intro X; apply Hu'; eapply reaches_transfer; eauto).
+    split; [|exact Hu]. now apply (containment b g g' Hag Hg Hg' n Hn Hu).
+  - intros [Hs Hu]. now apply (containment b g g' Hag Hg Hg' n Hn Hu).
+Qed.
+
+(* non-vacuity: the valid document A, L = array of A, N{l: L}, Z and the same document with a bad property in A *)
+Definition valid_item : graph :=
+  [mkN 1 false (TModel 0%nat) [mkI (OMintModel 1 (Some 0%nat)) 0] [mkE 1 1 [RRef 1; RCls 1] []];
+   mkN 2 false TOther [mkI (ONeed EItem 1 [RRef 2] 0 false) 0] [];
+   mkN 3 false (TModel 0%nat) [mkI (OMintModel 2 (Some 0%nat)) 0] [mkE 3 2 [RRef 3; RCls 2] [mkI (ONeed EProp 2 [RRef 3; RCls 2] 0 false) 0]];
+   mkN 4 false (TModel 0%nat) [mkI (OMintModel 3 (Some 0%nat)) 0] [mkE 4 3 [RRef 4; RCls 3] []]].
+Example containment_nonvacuous :
+  g_contain valid_item = true /\ g_contain witness_item = true /\ agree_off 1 valid_item witness_item /\
+  survivors valid_item = [4; 3; 2; 1] /\ survivors witness_item = [4].
+Proof.
+  split; [vm_compute; reflexivity|]. split; [vm_compute; reflexivity|]. split; [|split; vm_compute; reflexivity].
+  split; intros n Hn Hne; cbn in Hn; destruct Hn as [<-|[<-|[<-|[<-|[]]]]]; cbn in *; try congruence; tauto.
+Qed.
+
+(* T lfp (create part), stated as an equivalence: a component is in classes_by_reference after _create_schemas exactly when it
+   has a derivation (it is not a bare reference, nothing in it fails by itself, and everything it refers to at create time has a
+   derivation) - whatever the order of the components *)
+Theorem create_lfp g : wf_graph g = true -> g_plain g = true -> g_no_dup_error g = true ->
+  forall n, In n g -> (has (s_cbr (r_st (create_loop g))) (n_ref n) = true <-> C g n).
+Proof.
+  intros Hwf Hpl Hdup n Hn. destruct (wf_graph_spec _ Hwf) as [Hnd _]. split.
+  - intro Hc. destruct (create_sound g Hnd) as [_ CS]. destruct (CS _ Hc) as [n' (N1 & N2 & N3 & N4)].
+    assert (n' = n) by (exact (ref_inj g n' n Hnd N1 Hn N2)). now subst n'.
+  - now apply create_complete.
+Qed.
